@@ -285,6 +285,27 @@ func TestC18(t *testing.T) {
 		c.EnumSeq(p, alphaU, "", 0, Lu, func(w *Worker, s string) { w.Judge(ev.Case{Kind: "quote", N: k, In: s}) })
 	}
 
+	// candidate quotes beyond the 31-byte token clip: pad of every length 24..40, then a backslash run, then the delimiter
+	for k, m := range strModes {
+		k := k
+		d := string(m.delim)
+		p := c.rec.NewPart("quote_beyond_clip_"+m.name, "pad a^n (n = 24..40, also with a backslash at offsets 29..31) + backslash run of 0..4 + delimiter + tail", false, true, "")
+		var bodies []string
+		for n := 24; n <= 40; n++ {
+			pad := strings.Repeat("a", n)
+			for bsn := 0; bsn <= 4; bsn++ {
+				bs := strings.Repeat("\\", bsn)
+				for _, tail := range []string{"", " x", d, d + " x", " " + d} {
+					bodies = append(bodies, pad+bs+d+tail)
+					for off := 28; off <= 32 && off < n; off++ {
+						bodies = append(bodies, pad[:off]+"\\"+pad[off+1:]+bs+d+tail)
+					}
+				}
+			}
+		}
+		c.ParRange(p, int64(len(bodies)), func(w *Worker, i int64) { w.Judge(ev.Case{Kind: "quote", N: k, In: bodies[i]}) })
+	}
+
 	// q-quotes: all 223 delimiter bytes
 	Lb := pick(5, 6)
 	p := c.rec.NewPart("qstr_all_delimiters", fmt.Sprintf("all 223 delimiter bytes 33..255 x {q,Q} x {plain, n-prefixed} x every body of length 0..%d over {open byte, close byte, quote, 'a'}", Lb), false, true, "")
